@@ -1944,6 +1944,63 @@ def _see_through_value_memos(mods: dict[str, Module], inv: dict, log: list[str])
             log.append(f"{mod.relpath} {q}: value memo `{cname}[{ktext}]` read as `{ast.unparse(E)[:60]}` ({n_reads} read(s))")
 
 
+def _apply_partials(mods: dict[str, Module], log: list[str]) -> None:
+    """`g = partial(F, a, k=v)` bound once to a local that is only ever *called* in the same function: `g(b)` is `F(a, b, k=v)`."""
+    n = 0
+    for mod in mods.values():
+        for q, _, fn in _functions_of(mod):
+            binds = {}
+            for st in ast.walk(fn):
+                if isinstance(st, ast.Assign) and len(st.targets) == 1 and isinstance(st.targets[0], ast.Name) and isinstance(st.value, ast.Call) \
+                        and ast.unparse(st.value.func) in ("partial", "functools.partial") and st.value.args and not any(isinstance(a, ast.Starred) for a in st.value.args) \
+                        and all(k.arg for k in st.value.keywords):
+                    binds.setdefault(st.targets[0].id, []).append(st)
+            for name, sts in binds.items():
+                if len(sts) != 1:
+                    continue
+                st = sts[0]
+                occ = [x for x in ast.walk(fn) if isinstance(x, ast.Name) and x.id == name]
+                stores = [x for x in occ if isinstance(x.ctx, ast.Store)]
+                calls = [c for c in ast.walk(fn) if isinstance(c, ast.Call) and isinstance(c.func, ast.Name) and c.func.id == name]
+                if len(stores) != 1 or len(occ) - 1 != len(calls) or not calls:
+                    continue
+                bound_args = st.value.args[1:]
+                if not all(_simple(a) or isinstance(a, ast.Constant) for a in [*bound_args, *[k.value for k in st.value.keywords]]):
+                    continue
+                # the bound arguments must not be re-bound between the partial and its calls: keep to names bound once in the function (loop variables of an
+                # unrolled literal loop have already been replaced)
+                names = {x.id for a in [*bound_args, *[k.value for k in st.value.keywords], st.value.args[0]] for x in ast.walk(a) if isinstance(x, ast.Name)}
+                if any(sum(1 for x in ast.walk(fn) if isinstance(x, ast.Name) and x.id == nm and isinstance(x.ctx, ast.Store)) > 1 for nm in names):
+                    continue
+                def inner_loop(node):
+                    cur = getattr(node, "_parent", None)
+                    while cur is not None and cur is not fn:
+                        if isinstance(cur, (ast.For, ast.While, ast.AsyncFor, ast.ListComp, ast.GeneratorExp, ast.SetComp, ast.DictComp, ast.Lambda, ast.FunctionDef)):
+                            return cur
+                        cur = getattr(cur, "_parent", None)
+                    return None
+                for node in ast.walk(fn):
+                    for child in ast.iter_child_nodes(node):
+                        child._parent = node  # type: ignore[attr-defined]
+                if any(inner_loop(c) is not inner_loop(st) or (c.lineno, c.col_offset) <= (st.lineno, st.col_offset) for c in calls):
+                    continue
+                for c in calls:
+                    c.func = _clone(st.value.args[0])
+                    c.args = [*[_clone(a) for a in bound_args], *c.args]
+                    have = {k.arg for k in c.keywords}
+                    c.keywords = [*[ast.keyword(arg=k.arg, value=_clone(k.value)) for k in st.value.keywords if k.arg not in have], *c.keywords]
+                # drop the binding
+                for b in ast.walk(fn):
+                    for fld in ("body", "orelse", "finalbody"):
+                        lst = getattr(b, fld, None)
+                        if isinstance(lst, list) and any(x is st for x in lst):
+                            lst[:] = [x for x in lst if x is not st] or [ast.copy_location(ast.Pass(), st)]
+                n += 1
+                ast.fix_missing_locations(fn)
+    if n:
+        log.append(f"{n} local functools.partial object(s) applied at their call sites")
+
+
 def _always_raises(stmts: list[ast.stmt]) -> bool:
     """Every path through `stmts` ends in a raise (simple statements, then `raise` or an if/else whose branches do)."""
     if not stmts:
@@ -2572,6 +2629,7 @@ def canonicalise(mods: dict[str, Module]) -> dict:
         inl2.run()
         inl.log.extend(inl2.log)
         _scalarise_records(mods, inv, fwd_log)
+    _apply_partials(mods, fwd_log)
     _unroll_literal_loops(mods, fwd_log)
     _unroll_literal_comprehensions(mods, fwd_log)
     _static_attr_access(mods, fwd_log)
@@ -2582,6 +2640,7 @@ def canonicalise(mods: dict[str, Module]) -> dict:
     _unroll_literal_comprehensions(mods, fwd_log)
     _static_attr_access(mods, fwd_log)
     _split_conditional_with(mods, fwd_log)
+    _apply_partials(mods, fwd_log)
     _beta_reduce(mods, fwd_log)
     _strip_bool_in_tests(mods, fwd_log)
     fwd_log.extend(cm_log)
